@@ -20,6 +20,7 @@ PROPERTY = "C11"
 FUNCTIONS = [
     "flow.record.base:open_stream",
     "flow.record.base:find_adapter_for_stream",
+    "flow.record.stream:RecordStreamReader.readheader",
     "flow.record.base:open_path_or_stream",
     "flow.record.base:open_path",
     "flow.record.base:RecordAdapter",
@@ -206,6 +207,89 @@ def container():
         if not B.HAS_AVRO:
             return {"verdict": "unknown", "detail": "fastavro not importable: the avro branch is disabled in this environment", "queries": q, "solver_s": st}
         return {"verdict": "unsat", "detail": f"{len(outs)} paths equal the decision table for all <= 64-byte prefixes; cvc5: {sorted(set(crossed))}", "queries": q, "solver_s": st, "validated": validated}
+    except Untranslatable as e:
+        return {"verdict": "unknown", "detail": f"untranslatable: {e}", "queries": 0, "solver_s": 0.0}
+
+
+def stream_header():
+    """SMT: RecordStreamReader.readheader translated from the AST; the bytes handed out by fp.read(n) are a symbolic string h with
+    |h| <= n. Accepting must imply that the magic sits where the format puts it (offset 6 of the 19-byte header frame) - or that the
+    input ends before 19 bytes right after the magic, in which case nothing follows and no record can come out; the exact header
+    frame the format prescribes must be accepted."""
+    import time
+
+    import flow.record.base as B
+    from vf.smt import regex
+    from vf.smt.kse import Evaluator, Untranslatable, cross_check_cvc5, get_function_ast
+
+    try:
+        fn, mod, _ = get_function_ast("flow.record.stream:RecordStreamReader.readheader")
+        data = z3.String("header")
+        asked = []
+
+        class FP:
+            def read(self, n=-1):
+                asked.append(n)
+                return data
+
+        class Self:
+            fp = FP()
+
+        ev = Evaluator(mod, width=64)
+        outs = list(ev.run(list(fn.body), {"self": Self()}, []))
+        if len(set(asked)) != 1 or not isinstance(asked[0], int) or asked[0] <= 0:
+            raise Untranslatable(f"header read sizes {asked}")
+        n = asked[0]
+        magic = "".join(chr(c) for c in B.RECORDSTREAM_MAGIC)
+        exact = z3.StringVal("\x00\x00\x00\x0f\xc4\x0d".encode().decode("unicode_escape") + magic)
+        at6 = z3.And(z3.Length(data) == 6 + len(magic), z3.SubString(data, 6, len(magic)) == z3.StringVal(magic))
+        short = z3.And(z3.Length(data) < n, z3.SuffixOf(z3.StringVal(magic), data))  # the input ends here: no frame can follow
+        q, st, crossed, validated = 0, 0.0, [], 0
+        for o in outs:
+            if o.kind not in ("return", "raise", "fall"):
+                raise Untranslatable(f"path ends with {o.kind}")
+            kind = "raise" if o.kind == "raise" else "return"
+            s = z3.Solver()
+            s.set("timeout", 60000)
+            s.add(z3.Length(data) <= n)
+            s.add(*o.pc)
+            t = time.perf_counter()
+            feas = str(s.check())
+            st += time.perf_counter() - t
+            q += 1
+            if feas == "sat":
+                w = regex.model_string(s.model(), data)
+                try:
+                    raw = w.encode("latin-1")
+                    from flow.record.stream import RecordStreamReader
+
+                    try:
+                        RecordStreamReader(io.BytesIO(raw))
+                        got = "return"
+                    except OSError:
+                        got = "raise"
+                    if got != kind:
+                        return {"verdict": "error", "detail": f"translation predicts {kind} for header {raw!r}, the real reader does {got}", "queries": q, "solver_s": st}
+                    validated += 1
+                except UnicodeEncodeError:
+                    pass
+            if kind == "return":
+                s.add(z3.Not(z3.Or(at6, short)))
+                what = "accepted although the magic is not at offset 6 of the header frame"
+            else:
+                s.add(data == exact)
+                what = "the header frame the format prescribes is refused"
+            t = time.perf_counter()
+            r = str(s.check())
+            st += time.perf_counter() - t
+            q += 1
+            if r == "sat":
+                w = regex.model_string(s.model(), data)
+                return {"verdict": "sat", "model": {"header": w.encode("latin-1", "replace").hex(), "outcome": kind}, "detail": what, "queries": q, "solver_s": st}
+            if r != "unsat":
+                return {"verdict": "unknown", "detail": r, "queries": q, "solver_s": st}
+            crossed.append(cross_check_cvc5(s, "unsat"))
+        return {"verdict": "unsat", "detail": f"{len(outs)} paths: accepted => magic at offset 6 (or input ends right after the magic); the prescribed header is accepted; read size {n}; cvc5: {sorted(set(crossed))}", "queries": q, "solver_s": st, "validated": validated}
     except Untranslatable as e:
         return {"verdict": "unknown", "detail": f"untranslatable: {e}", "queries": 0, "solver_s": 0.0}
 
@@ -407,6 +491,7 @@ def obligations(tier, seed):
     return [
         ob("O1-sniff", "xh", "sniff", {}, timeout=to, bounds="all byte strings <= 6 bytes, peek()/no peek(), read/write"),
         ob("O2-container", "smt", "container", {}, timeout=240, bounds="all peeked byte strings <= 64 bytes"),
+        ob("O2-stream-header", "smt", "stream_header", {}, timeout=240, bounds="all byte strings a header read can return (<= 19 bytes)"),
         ob("O2-not-found", "xh", "not_found", {}, timeout=to, bounds="3 detection outcomes x leading '<' x selector"),
         ob("O3-open-path", "xh", "path_open", {}, timeout=to * 2, bounds="10 suffixes x 5 modes x clobber x exists x 4 stdio spellings"),
         ob("O4-urls", "xh", "urls", {}, timeout=to * 2, bounds=f"{len(URLS)} URL spellings x reader/writer x clobber"),
@@ -493,7 +578,39 @@ def real_matrix():
     return None
 
 
+def replay_header(res):
+    """the solver's header bytes (and a few completions of them) as a file, a file object and a stream:// URL"""
+    from flow.record import RecordReader
+    from flow.record.stream import RecordStreamReader
+
+    m = (res.get("cex") or {}).get("kw") or {}
+    raw = bytes.fromhex(m.get("header", ""))
+    if m.get("outcome") == "raise":
+        try:
+            list(RecordStreamReader(io.BytesIO(raw)))
+        except Exception as e:  # noqa: BLE001
+            return {"reproduced": True, "key": "C11/header/refused", "what": f"the header frame the format prescribes ({raw!r}) is refused: {type(e).__name__}: {e}", "input": {"header": raw.hex()}}
+        return {"reproduced": False, "what": "prescribed header accepted"}
+    for tail in (b"", b"hello\n", b"\x00\x00\x00\x01\xc0"):
+        body = raw + tail
+        with tempdir() as d:
+            p = d + "/input.bin"
+            open(p, "wb").write(body)
+            for how in ("path", "fileobj"):
+                try:
+                    rd = RecordReader(p) if how == "path" else RecordReader(fileobj=open(p, "rb"))
+                    got = list(rd)
+                    rd.close()
+                except Exception:  # noqa: BLE001 - refused: what the property demands
+                    continue
+                if len(body) >= 19 and body[6:19] != b"RECORDSTREAM\n":
+                    return {"reproduced": True, "key": "C11/header/lenient", "what": f"input {body!r} (no stream header: the magic is not at offset 6) opened by {how} is read as a record stream yielding {len(got)} record(s) instead of being refused", "input": {"bytes": body.hex(), "how": how}}
+    return {"reproduced": False, "what": "inputs built from the solver's header are refused"}
+
+
 def replay(res):
+    if "stream-header" in res["id"]:
+        return replay_header(res)
     problem = real_matrix()
     if problem is None:
         return {"reproduced": False, "what": "codec x container x naming matrix reads back exactly with real codecs"}
